@@ -139,6 +139,10 @@ def configurations(seed):
     for k in range(11):
         cfg.append(('flag %d off' % k, FLAG_PROBE[k], {k: False}, None, b''))
     cfg.append(('flag 9 off SIGN_STACK', 'SIGN_STACK', {9: False}, None, b''))
+    # the other documented way of turning a flag off: taking it out of functions.flags_to_set
+    for k in range(11):
+        cfg.append(('flag %d off (removed from flags_to_set)' % k, FLAG_PROBE[k], {}, ('fts', k), b''))
+    cfg.append(('flag 10 off (removed from flags_to_set) + sigext plugin', 'CHECK_TEMPLATE', {}, ('fts+plugin', 10), b''))
     cfg.append(('flag 4 off MASV', 'MASV', {4: False}, None, b''))
     cfg.append(('flag 9 off DAS', 'DAS', {9: False}, None, b''))
     for name in sorted(set(FLAG_PROBE.values())) + ['SIGN_STACK']:
@@ -207,6 +211,17 @@ def case_fn(ctx, case):
         F.add_contract(b'c1', contracts[b'c1'])
         glob.append(lambda: F.remove_contract(b'c1'))
         run_contracts = {}
+    ref_flags = flags
+    if type(mode) is tuple:
+        k_off = mode[1]
+        saved_fts = list(F.flags_to_set)
+        if k_off in F.flags_to_set:
+            F.flags_to_set.remove(k_off)
+        glob.append(lambda: F.flags_to_set.__setitem__(slice(None), saved_fts))
+        ref_flags = {**flags, k_off: False}
+        if mode[0] == 'fts+plugin':
+            counter = Counter()
+            plugins['signature_extensions'] = [counter]
     env.Rand.reset(b'diff')
     try:
         try:
@@ -221,7 +236,7 @@ def case_fn(ctx, case):
     finally:
         for g in glob:
             g()
-    ref, e = run_ref([script], ro, None, flags, LIMITS, contracts, now, ct_plugins=ct)
+    ref, e = run_ref([script], ro, None, ref_flags, LIMITS, contracts, now, ct_plugins=ct)
     ctx.ran(2)
     ctx.trans(len(ctxkinds) + 1)
     res = judge(impl, ref)
